@@ -141,6 +141,7 @@ def run(ctx, P='C10', cache_only=False):
     if cache_only: return
     # ---------------------------------------------------------------- B
     run_count_pairing(ctx)
+    run_merge_own_pending(ctx)
     # ---------------------------------------------------------------- D
     run_noflush_reads(ctx)
     run_pending_marks(ctx)
@@ -263,6 +264,47 @@ def setdata_vars(fn_node):
     return out
 
 
+def run_merge_own_pending(ctx):
+    """rows read from the database are merged into a collection after the collection's *own* pending changes were taken into account: in a
+    statement list that ends in `T |= items` (T a SetData), every earlier adjustment of the rows (`items -= X`, `items -= X.removed`, guarded or
+    not) refers to the same T.  In the batch branch of Set.load two SetData variables are in scope (the collection that triggered the load and
+    the one being filled); subtracting the removals of the wrong one re-inserts a link the session has removed from the other object."""
+    repo = ctx.repo
+    nm = 0
+    for fn in repo.rule_funcs():
+        if fn.mod.name != 'pony.orm.core': continue
+        names = setdata_vars(fn.node)
+        if len(names) < 1: continue
+        def bodies(node):
+            for fld in ('body', 'orelse', 'finalbody'):
+                b = getattr(node, fld, None)
+                if isinstance(b, list) and b and isinstance(b[0], ast.stmt):
+                    yield b
+                    for st in b:
+                        if isinstance(st, (ast.FunctionDef, ast.AsyncFunctionDef, ast.ClassDef)): continue
+                        yield from bodies(st)
+        for body in bodies(fn.node):
+            for i, st in enumerate(body):
+                if not (isinstance(st, ast.AugAssign) and isinstance(st.op, ast.BitOr) and isinstance(st.target, ast.Name) and st.target.id in names and isinstance(st.value, ast.Name)): continue
+                T, rows = st.target.id, st.value.id
+                others = []
+                for prev in body[:i]:
+                    for a in ast.walk(prev):
+                        if isinstance(a, ast.AugAssign) and isinstance(a.op, ast.Sub) and isinstance(a.target, ast.Name) and a.target.id == rows:
+                            base = a.value
+                            while isinstance(base, ast.Attribute): base = base.value
+                            if isinstance(base, ast.Name) and base.id in names and base.id != T: others.append((a, base.id))
+                    if isinstance(prev, ast.If):
+                        for x in ast.walk(prev.test):
+                            if isinstance(x, ast.Name) and x.id in names and x.id != T and any(isinstance(a, ast.AugAssign) and isinstance(a.target, ast.Name) and a.target.id == rows for a in ast.walk(prev)):
+                                others.append((prev, x.id))
+                nm += 1
+                ctx.ob('C10-B.loaded-rows-are-merged-with-the-collections-own-pending-changes', fn, st, not others,
+                       '' if not others else 'before `%s` the rows are adjusted by the pending changes of `%s` (`%s`), another collection: a link that the session removed from this object '
+                       'is read back into it, and `in` / count() / iteration report it until the session ends' % (norm(st), others[0][1], norm(others[0][0])[:60]), node=st)
+    ctx.floor('C10-B', nm, 2, 'merges of loaded rows into a SetData')
+
+
 def run_count_pairing(ctx):
     repo = ctx.repo
     n_sites = 0
@@ -349,6 +391,7 @@ def count_known_none(g, st, var):
 
 
 MUTANTS = [
+    dict(id='C10-own1', file='pony/orm/core.py', fn='Set.load', old="                if setdata2.removed: items -= setdata2.removed\n                setdata2 |= items", new="                if setdata.removed: items -= setdata.removed\n                setdata2 |= items", expect='C10-B.loaded-rows'),
     dict(id='C10-f1', file='pony/orm/core.py', fn='SessionCache._calc_modified_m2m', old="            if reverse in modified_m2m:\n", new="            if reverse in modified_m2m: continue\n            if False:\n", expect='C10-F.flush-settles'),
     dict(id='C10-d3', file='pony/orm/core.py', fn='SetInstance.count', old="        with cache.flush_disabled():\n            cursor = database._exec_sql(sql, arguments)\n        setdata.count = cursor.fetchone()[0]", new="        cursor = database._exec_sql(sql, arguments)\n        setdata.count = cursor.fetchone()[0]", expect='C10-D.result-adjusted'),
     dict(id='C10-e1', file='pony/orm/core.py', fn='EntityMeta._find_in_db_', old="        cache.prepare_connection_for_query_execution()  # flush: a new object used as a value gets its primary key\n", new="", expect='C10-E'),
